@@ -170,13 +170,22 @@ def predSchema (pr : Printer) (p : PredK) : Except Exn JObj :=
   | .exactItemCount _ => .error .typeError
   | .user _ => .error .typeError
 
-/-- all predicates of a validator, merged with `dict.update` (a later keyword overwrites) -/
+/-- `_add_predicate_schema`: the keywords of one predicate join the validator's schema; if one of them
+    is already set, the predicate's schema goes under `allOf` instead (nothing is overwritten) -/
+def jaddPred (base o : JObj) : JObj :=
+  if o.any (fun p => base.any (fun q => q.1 == p.1)) then
+    match base.find? (fun q => q.1 == kw "allOf") with
+    | some (_, .arr xs) => jset base (kw "allOf") (.arr (xs ++ [.obj o]))
+    | _ => jset base (kw "allOf") (.arr [.obj o])
+  else jupdate base o
+
+/-- all predicates of a validator -/
 def predsSchema (pr : Printer) (base : JObj) : List Pred → Except Exn JObj
   | [] => .ok base
   | p :: ps =>
     match predSchema pr p.k with
     | .error e => .error e
-    | .ok o => predsSchema pr (jupdate base o) ps
+    | .ok o => predsSchema pr (jaddPred base o) ps
 
 /-- `get_base` -/
 def baseSchema : Ty → Except Exn JObj
